@@ -149,6 +149,7 @@ func runProp(spec *PropSpec, tier, mutant string, noMut bool) (code int) {
 		}
 		spec.Run(c)
 		runGeneric(c, spec)
+		runFixRules(c, spec)
 		if c.Whole && spec.Thorough != nil {
 			spec.Thorough(c)
 		}
